@@ -11,4 +11,14 @@ CHECKS = {
                 "projections, core/alloc/std callees cannot call Push methods on a downstream handed to them.",
         "technique": "typestate dataflow + must-pass-through + re-poll cycle analysis on rustc MIR (custom rustc_private driver)",
     },
+    "C14": {
+        "text": "Partial, static: on every path of the generic MIR of the 14 Sink impls + 2 SinkVariadic impls of sinktools and the send_iter/send_stream driver "
+                "futures: inner start_send is dominated by inner poll_ready -> Ready(Ok) (collections: a chained try_fold over all elements readies `coll.*`; a "
+                "receiver obtained through entry()/or_insert* counts as possibly fresh), flush/close succeed only after the inner ones, no send is repeatable on "
+                "re-poll, no inner Result is discarded, drivers flush before completing. LazySink/LazySinkHalf's enum-state-dependent readiness is a documented table "
+                "exception (their in-poll sends are still checked). One genuine finding (LazyDemuxSink) is listed in known_findings.txt. Routing by key and "
+                "ordering are NOT decided.",
+        "note": "Trusted: rustc MIR construction on nightly, pin-project-lite, core/alloc/std callees cannot call Sink methods on a sink handed to them.",
+        "technique": "typestate dataflow with trace partitioning on rustc MIR (custom rustc_private driver)",
+    },
 }
